@@ -845,6 +845,91 @@ func freshBurst(t *testing.T, run *vt.Run, c vt.CaseID, rng *rand.Rand) {
 	})
 }
 
+// staleTombstone: every node holds the ring; one node receives a delayed message that only carries a tombstone older
+// than the retention. Such a tombstone is dropped by every node, so it must not be gossiped on: after a few lossless
+// rounds every broadcast queue is empty and no watcher fired for an unchanged value.
+func staleTombstone(t *testing.T, run *vt.Run, c vt.CaseID, rng *rand.Rand) {
+	synctest.Test(t, func(t *testing.T) {
+		n := 3 + rng.IntN(3)
+		net, err := simnet.New(n, simnet.DefaultConfig(30*time.Second))
+		if err != nil {
+			run.Inconclusive(err.Error())
+			return
+		}
+		defer net.Stop()
+		s := &sim{net: net, rng: rng, n: n, group: make([]int, n), stats: map[string]int{}, onceWritten: map[int]bool{}}
+		for i := 0; i < n; i++ {
+			s.casRing(i)
+			time.Sleep(time.Second)
+			synctest.Wait()
+		}
+		for r := 0; r < 10; r++ {
+			s.gossipRound(0, true, false)
+		}
+		for i := 0; i+1 < n; i++ {
+			net.PushPull(i, i+1)
+			synctest.Wait()
+		}
+		for r := 0; r < 10; r++ {
+			s.gossipRound(0, true, false)
+		}
+		synctest.Wait()
+		before := make([]string, n)
+		for i := range before {
+			before[i] = net.Visible(i, simnet.RingKey)
+		}
+		calls := make([]int, n)
+		ctx, cancel := context.WithCancel(context.Background())
+		defer cancel()
+		var mu sync.Mutex
+		for i := 0; i < n; i++ {
+			i := i
+			go net.Client(i, ring.GetCodec()).WatchKey(ctx, simnet.RingKey, func(interface{}) bool { mu.Lock(); calls[i]++; mu.Unlock(); return true })
+		}
+		synctest.Wait()
+		old := ring.NewDesc()
+		old.Ingesters["gone"] = ring.InstanceDesc{Id: "gone", Addr: "gone", State: ring.LEFT, Timestamp: time.Now().Unix() - 3600}
+		b, _ := ring.GetCodec().Encode(old)
+		kvp := memberlist.KeyValuePair{Key: simnet.RingKey, Codec: ring.GetCodec().CodecID(), Value: b}
+		msg, _ := kvp.Marshal()
+		net.Deliver(rng.IntN(n), msg)
+		synctest.Wait()
+		sent := 0
+		for r := 0; r < 20; r++ {
+			for i := 0; i < n; i++ {
+				for _, m := range net.Collect(i) {
+					sent++
+					for j := 0; j < n; j++ {
+						if j != i {
+							net.Deliver(j, m)
+						}
+					}
+				}
+			}
+			synctest.Wait()
+		}
+		run.EvalH(vt.Mix(uint64(c.Idx), uint64(n), 93), true)
+		for i := 0; i < n; i++ {
+			l, g := net.Nodes[i].KV.VerifQueuedBroadcasts()
+			if l+g > 0 {
+				run.Violation(c, "never-quiescent/stale-tombstone-regossiped", fmt.Sprintf("20 lossless rounds after one message carrying only a tombstone older than the retention, n%d still has %d broadcasts queued (%d messages sent meanwhile)", i, l+g, sent), nil)
+				return
+			}
+			if v := net.Visible(i, simnet.RingKey); v != before[i] {
+				run.Violation(c, "stale-tombstone-changed-value", "a tombstone older than the retention changed what a node shows", map[string]any{"before": before[i], "after": v})
+			}
+		}
+		mu.Lock()
+		defer mu.Unlock()
+		for i, k := range calls {
+			if k > 0 {
+				run.Violation(c, "watcher-called-without-change", fmt.Sprintf("the watcher on n%d was called %d times although the value never changed", i, k), nil)
+				return
+			}
+		}
+	})
+}
+
 func TestC06(t *testing.T) {
 	run := vt.NewRun("C06", "fault_enumeration")
 	run.SetRule("case = one seeded adversarial schedule on 2-6 gossip KV nodes detached from the transport (verif hook), inside a synctest bubble: acknowledged CAS on the instance ring and the partition ring on any node, gossip rounds where the adversary decides per (message, destination) deliver / drop (p in {0,.3,.9}) / duplicate / delay and reorder / block by partition, push/pull exchanges, partitions and heals, node restarts, watcher registration, malformed messages (only ones the public codec rejects), virtual time advances; then a bounded recovery (all delayed messages, 2(N-1) push/pull exchanges along a chain, 12 lossless full-fan-out gossip rounds) and the judgement: all nodes expose the same value per key, every acknowledged CAS is dominated by every node's stored state, every watcher (key and prefix watchers; nodes notify at once or every NotifyInterval in {0.5 s, 3 s}) has been called if the node's value changed after it registered and its last value is the node's final value, Invalidates(new, old) only when new contains old, malformed messages leave the stored state unchanged and do not crash. A second mode runs lossless full-fan-out gossip only (no push/pull) where divergence would reveal lost queue entries. non-trivial = more than one acknowledged CAS; distinct by journal; distinct fault-statistics vectors counted.")
@@ -862,6 +947,11 @@ func TestC06(t *testing.T) {
 	run.ForEachT(t, "fresh-burst", vt.N(300, 8000), func(t *testing.T, c vt.CaseID, rng *rand.Rand, s *vt.Slot) {
 		s.Enter(c, "crash/fresh-burst")
 		freshBurst(t, run, c, rng)
+		s.Leave()
+	})
+	run.ForEachT(t, "stale-tombstone", vt.N(60, 1500), func(t *testing.T, c vt.CaseID, rng *rand.Rand, s *vt.Slot) {
+		s.Enter(c, "crash/stale-tombstone")
+		staleTombstone(t, run, c, rng)
 		s.Leave()
 	})
 	run.ForEachT(t, "truncations", vt.N(40, 1500), func(t *testing.T, c vt.CaseID, rng *rand.Rand, s *vt.Slot) {
